@@ -15,20 +15,22 @@ From V.proofs Require Import Shutdown_Proofs Shutdown_Term_Proofs.
 Section Reach.
 Variable cap : Z.
 Variable ucfg : bool.
+Variable daf : bool.
 
-Notation step := (Shutdown.step cap ucfg).
-Notation apply := (Shutdown.apply cap ucfg).
-Notation run_from := (Shutdown.run_from cap ucfg).
-Notation run := (Shutdown.run cap ucfg).
-Notation prompt_from := (Shutdown.prompt_from cap ucfg).
-Notation prompt := (Shutdown.prompt cap ucfg).
-Notation step_thread := (Shutdown.step_thread cap).
+Notation step := (Shutdown.step cap ucfg daf).
+Notation apply := (Shutdown.apply cap ucfg daf).
+Notation run_from := (Shutdown.run_from cap ucfg daf).
+Notation run := (Shutdown.run cap ucfg daf).
+Notation prompt_from := (Shutdown.prompt_from cap ucfg daf).
+Notation prompt := (Shutdown.prompt cap ucfg daf).
+Notation step_thread := (Shutdown.step_thread cap daf).
+Notation Inv2 := (Shutdown_Term_Proofs.Inv2 daf).
 
 Ltac splitifs E := repeat match type of E with context [if ?c then _ else _] => destruct c end.
 
 Lemma rank_nonneg w : Inv2 w -> 0 <= rank w.
 Proof.
-  intros H. destruct (i2_len w H) as [L1 L2]. unfold rank.
+  intros H. destruct (i2_len daf w H) as [L1 L2]. unfold rank.
   pose proof (rank_thread_nonneg MI (t_mi (w_thr w))). pose proof (rank_thread_nonneg RT (t_rt (w_thr w))).
   pose proof (rank_thread_nonneg SO (t_so (w_thr w))). pose proof (rank_thread_nonneg PB (t_pb (w_thr w))).
   pose proof (rank_thread_nonneg PU (t_pu (w_thr w))). pose proof (rank_thread_nonneg CD (t_cd (w_thr w))).
@@ -42,26 +44,28 @@ Proof.
   destruct (thread w PU) eqn:Et; try reflexivity.
   destruct (ch_locked w CTx); [|reflexivity]. cbn [andb].
   destruct (ch_open w CTx) eqn:Eo; [|reflexivity]. exfalso.
-  destruct (i2_thr w H PU) as (_ & _ & _ & _ & E). destruct (E eq_refl) as [_ E2].
-  rewrite (E2 Et Eo) in Hf. discriminate.
+  destruct (i2_thr daf w H PU) as (_ & _ & _ & _ & E). destruct (E eq_refl) as [_ E2].
+  destruct (E2 Et Eo) as [Hf' _]. rewrite Hf' in Hf. discriminate.
 Qed.
 
 (* the benign steps keep "processUnconfirmedTxs has not failed" *)
+Ltac splitifs' E := repeat match type of E with context [if ?c then _ else _] => destruct c eqn:? end.
+
 Lemma pufail_step_thread w t n w' :
   step_thread w t KEnd n = Some w' -> d_pufail (w_dat w') = d_pufail (w_dat w).
 Proof.
   unfold Shutdown.step_thread. destruct (thread w t) as [| |p f|]; try discriminate.
   assert (R : w_dat (restart w) = w_dat w) by apply dat_restart.
   assert (Q : w_dat (request_stop w) = w_dat w) by apply dat_request_stop.
-  Ltac pf R Q := cbn; rewrite ?R, ?Q; reflexivity.
+  Ltac pf R Q := cbn; rewrite ?R, ?Q; first [reflexivity|congruence].
   destruct p; intros E.
-  - unfold top_step, consume in E. destruct t; splitifs E; try discriminate; try (destruct (w_conn w));
+  - unfold top_step, consume in E. destruct t; splitifs' E; try discriminate; try (destruct (w_conn w));
       apply some_inj in E; subst w'; try destruct c; pf R Q.
   - destruct t; try discriminate. unfold read_step in E.
-    destruct (w_conn w); splitifs E; try discriminate; apply some_inj in E; subst w'; pf R Q.
+    destruct (w_conn w); splitifs' E; try discriminate; apply some_inj in E; subst w'; pf R Q.
   - destruct (stopping w); apply some_inj in E; subst w'; pf R Q.
-  - unfold work_step, fail_exit, end_body in E.
-    destruct t, f; splitifs E; try discriminate; apply some_inj in E; subst w'; pf R Q.
+  - unfold Shutdown.work_step, fail_exit, end_body in E.
+    destruct t, f; splitifs' E; try discriminate; apply some_inj in E; subst w'; pf R Q.
   - unfold after_add in E. destruct (stopping w), t; apply some_inj in E; subst w'; pf R Q.
   - unfold after_add in E. destruct (ch_locked w c); [discriminate|]. destruct (ch_open w c), t; apply some_inj in E; subst w'; pf R Q.
   - unfold after_add in E. destruct (ch_len w c <? cap); [|discriminate]. destruct t, c; apply some_inj in E; subst w'; pf R Q.
@@ -79,11 +83,14 @@ Proof.
   - destruct k; try discriminate. rewrite (pufail_step_thread w t n w' E). exact Hf.
 Qed.
 
+Lemma no_d26' w : Inv2 w -> (daf = true \/ d_pufail (w_dat w) = false) -> d26_state cap w = false.
+Proof. intros H [Hd|Hf]; [apply (no_d26_daf cap daf); assumption|apply no_d26; assumption]. Qed.
+
 (* from every state after a stop request in which the consumer of the tx channel has not failed, a
    schedule of at most `rank w` benign run-loop / goroutine steps reaches stopped = true *)
 Lemma reach_stopped_n : forall (n : nat) w,
   rank w <= Z.of_nat n ->
-  Inv w -> Inv2 w -> 1 <= cap -> stopping w = true -> hard w = true -> d_pufail (w_dat w) = false ->
+  Inv w -> Inv2 w -> 1 <= cap -> stopping w = true -> hard w = true -> (daf = true \/ d_pufail (w_dat w) = false) ->
   exists acts', forallb benign acts' = true /\ forallb thread_act acts' = true /\ prompt_from w acts' = true /\
                 Z.of_nat (length acts') <= rank w /\ stopped (run_from w acts') = true.
 Proof.
@@ -91,21 +98,22 @@ Proof.
   - pose proof (rank_nonneg w H) as Hn.
     destruct (stopped w) eqn:Es.
     + exists []. cbn. repeat split; auto; lia.
-    + destruct (progress cap ucfg w HI H Hcap Hst Es (no_d26 w H Hf)) as (a & Hb & Ha & Hp & He).
+    + destruct (progress cap ucfg daf w HI H Hcap Hst Es (no_d26' w H Hf)) as (a & Hb & Ha & Hp & He).
       destruct (step w a) as [w'|] eqn:E; [|congruence].
-      pose proof (rank_decreases cap ucfg w a w' HI H Hst Hh Ha E) as Hd.
-      assert (H' : Inv2 w') by (pose proof (Inv2_step cap ucfg w a H) as X; unfold Shutdown.apply in X; rewrite E in X; exact X).
+      pose proof (rank_decreases cap ucfg daf w a w' HI H Hst Hh Ha E) as Hd.
+      assert (H' : Inv2 w') by (pose proof (Inv2_step cap ucfg daf w a H) as X; unfold Shutdown.apply in X; rewrite E in X; exact X).
       pose proof (rank_nonneg w' H'). lia.
   - destruct (stopped w) eqn:Es.
     + pose proof (rank_nonneg w H) as Hn. exists []. cbn. repeat split; auto; lia.
-    + destruct (progress cap ucfg w HI H Hcap Hst Es (no_d26 w H Hf)) as (a & Hb & Ha & Hp & He).
+    + destruct (progress cap ucfg daf w HI H Hcap Hst Es (no_d26' w H Hf)) as (a & Hb & Ha & Hp & He).
       destruct (step w a) as [w'|] eqn:E; [|congruence].
-      pose proof (rank_decreases cap ucfg w a w' HI H Hst Hh Ha E) as Hd.
+      pose proof (rank_decreases cap ucfg daf w a w' HI H Hst Hh Ha E) as Hd.
       assert (Eap : apply w a = w') by (unfold Shutdown.apply; rewrite E; reflexivity).
       assert (HI' : Inv w') by (rewrite <- Eap; apply Inv_step; assumption).
       assert (H' : Inv2 w') by (rewrite <- Eap; apply Inv2_step; assumption).
-      destruct (hard_stop_stable cap ucfg w a Hst Hh) as [Hst' Hh']. rewrite Eap in Hst', Hh'.
-      pose proof (pufail_benign w a w' Hb E Hf) as Hf'.
+      destruct (hard_stop_stable cap ucfg daf w a Hst Hh) as [Hst' Hh']. rewrite Eap in Hst', Hh'.
+      assert (Hf' : daf = true \/ d_pufail (w_dat w') = false).
+      { destruct Hf as [Hf|Hf]; [left; exact Hf|right; exact (pufail_benign w a w' Hb E Hf)]. }
       assert (Hr' : rank w' <= Z.of_nat n) by lia.
       destruct (IH w' Hr' HI' H' Hcap Hst' Hh' Hf') as (acts' & B1 & B2 & B3 & B4 & B5).
       exists (a :: acts'). cbn [forallb Shutdown.prompt_from Shutdown.run_from fold_left length].
@@ -116,13 +124,13 @@ Qed.
 Theorem stop_reaches_stopped : forall acts,
   1 <= cap -> prompt acts = true ->
   let w := run acts in
-  stopcall w = 2 -> d_pufail (w_dat w) = false ->
+  stopcall w = 2 -> (daf = true \/ d_pufail (w_dat w) = false) ->
   exists acts', forallb thread_act acts' = true /\ prompt_from w acts' = true /\
                 Z.of_nat (length acts') <= rank w /\ stopped (run_from w acts') = true.
 Proof.
   intros acts Hcap Hp w Hc Hf.
-  pose proof (Inv_reachable cap ucfg acts Hp) as HI. pose proof (Inv2_reachable cap ucfg acts) as H. fold w in HI, H.
-  destruct (stop_requested_flags w H Hc) as [Hst Hh].
+  pose proof (Inv_reachable cap ucfg daf acts Hp) as HI. pose proof (Inv2_reachable cap ucfg daf acts) as H. fold w in HI, H.
+  destruct (stop_requested_flags daf w H Hc) as [Hst Hh].
   pose proof (rank_nonneg w H) as Hn.
   destruct (reach_stopped_n (Z.to_nat (rank w)) w) as (acts' & _ & B2 & B3 & B4 & B5); try assumption; [lia|].
   exists acts'. auto.
@@ -143,7 +151,7 @@ Theorem stop_progress_reachable : forall acts,
   stopping w = true -> stopped w = false -> d26_state cap w = false ->
   exists a, benign a = true /\ thread_act a = true /\ prompt_ok w a = true /\ step w a <> None.
 Proof.
-  intros acts Hc Hp w. exact (progress cap ucfg w (Inv_reachable cap ucfg acts Hp) (Inv2_reachable cap ucfg acts) Hc).
+  intros acts Hc Hp w. exact (progress cap ucfg daf w (Inv_reachable cap ucfg daf acts Hp) (Inv2_reachable cap ucfg daf acts) Hc).
 Qed.
 
 Theorem stop_bounded_work_reachable : forall acts acts',
@@ -151,12 +159,12 @@ Theorem stop_bounded_work_reachable : forall acts acts',
   let w := run acts in
   stopcall w = 2 ->
   0 <= rank (run_from w acts') /\
-  rank (run_from w acts') + effective cap ucfg w acts' <= rank w + injected cap ucfg w acts'.
+  rank (run_from w acts') + effective cap ucfg daf w acts' <= rank w + injected cap ucfg daf w acts'.
 Proof.
   intros acts acts' Hp w Hc. unfold Shutdown.prompt in Hp. rewrite prompt_from_app in Hp.
   apply andb_true_iff in Hp. destruct Hp as [Hp1 Hp2].
-  pose proof (Inv_reachable cap ucfg acts Hp1) as HI. pose proof (Inv2_reachable cap ucfg acts) as H. fold w in HI, H.
-  destruct (stop_requested_flags w H Hc) as [Hst Hh].
+  pose proof (Inv_reachable cap ucfg daf acts Hp1) as HI. pose proof (Inv2_reachable cap ucfg daf acts) as H. fold w in HI, H.
+  destruct (stop_requested_flags daf w H Hc) as [Hst Hh].
   split.
   - apply rank_nonneg. apply Inv2_run. exact H.
   - apply stop_bounded_work; assumption.
@@ -168,7 +176,7 @@ Theorem injection_needs_mu_reachable : forall acts n,
   step w (AUnMsg n) <> None ->
   exists p f, thread w MU = TLive p f /\ p <> PWaitUn /\ step w (AStep MU KEnd 0) <> None.
 Proof.
-  intros acts n Hp w. exact (injection_needs_mu cap ucfg w n (Inv_reachable cap ucfg acts Hp) (Inv2_reachable cap ucfg acts)).
+  intros acts n Hp w. exact (injection_needs_mu cap ucfg daf w n (Inv_reachable cap ucfg daf acts Hp) (Inv2_reachable cap ucfg daf acts)).
 Qed.
 
 Theorem mu_dist_decreases_reachable : forall acts a w',
@@ -176,7 +184,7 @@ Theorem mu_dist_decreases_reachable : forall acts a w',
   stopping w = true -> (a = AReg MU \/ exists k n, a = AStep MU k n) -> step w a = Some w' ->
   (forall f, thread w MU <> TLive PWaitUn f) ->
   mu_dist ucfg w' < mu_dist ucfg w.
-Proof. intros acts a w' w. exact (mu_dist_decreases cap ucfg w a w' (Inv2_reachable cap ucfg acts)). Qed.
+Proof. intros acts a w' w. exact (mu_dist_decreases cap ucfg daf w a w' (Inv2_reachable cap ucfg daf acts)). Qed.
 
 Theorem mu_dist_stable_reachable : forall acts a w',
   prompt acts = true ->
@@ -184,7 +192,7 @@ Theorem mu_dist_stable_reachable : forall acts a w',
   stopping w = true -> hard w = true ->
   a <> AReg MU -> (forall k n, a <> AStep MU k n) -> step w a = Some w' ->
   mu_dist ucfg w' <= mu_dist ucfg w.
-Proof. intros acts a w' Hp w. exact (mu_dist_stable cap ucfg w a w' (Inv_reachable cap ucfg acts Hp)). Qed.
+Proof. intros acts a w' Hp w. exact (mu_dist_stable cap ucfg daf w a w' (Inv_reachable cap ucfg daf acts Hp)). Qed.
 
 (* ---- D26: a permanent hang ---- *)
 
@@ -222,7 +230,7 @@ Proof.
   - destruct t; try discriminate. congruence.
   - destruct t; try congruence; destruct (stopping w) eqn:Es; apply some_inj in E0; subst w';
       eapply (stuck_frame _ _ Hs); stk_ob Et.
-  - unfold work_step, fail_exit, end_body, spawn_un in E0.
+  - unfold Shutdown.work_step, fail_exit, end_body, spawn_un in E0.
     destruct t; try congruence; destruct k, f; splitifs E0; try discriminate; apply some_inj in E0; subst w';
       try (eapply (stuck_frame _ _ Hs); stk_ob Et).
     all: cbn [thread set_thread set_thr w_thr tget tset]; destruct (t_un (w_thr w)); eapply (stuck_frame _ _ Hs); stk_ob Et.
@@ -280,7 +288,31 @@ Qed.
 End Reach.
 
 (* ---------------------------------------------------------------------------------------------- *)
-(* D26, with the capacity of the code (100) and no untrusted nodes configured.
+(* the code as it is (the consumer keeps draining after an error): no hypothesis about D26 *)
+
+Theorem stop_progress_fixed : forall (cap : Z) (ucfg : bool) (acts : list act),
+  1 <= cap -> prompt cap ucfg true acts = true ->
+  let w := run cap ucfg true acts in
+  stopping w = true -> stopped w = false ->
+  exists a, benign a = true /\ thread_act a = true /\ prompt_ok w a = true /\ step cap ucfg true w a <> None.
+Proof.
+  intros cap ucfg acts Hc Hp w Hst Hs.
+  exact (progress_daf cap ucfg true w eq_refl (Inv_reachable cap ucfg true acts Hp) (Inv2_reachable cap ucfg true acts) Hc Hst Hs).
+Qed.
+
+Theorem stop_reaches_stopped_fixed : forall (cap : Z) (ucfg : bool) (acts : list act),
+  1 <= cap -> prompt cap ucfg true acts = true ->
+  let w := run cap ucfg true acts in
+  stopcall w = 2 ->
+  exists acts', forallb thread_act acts' = true /\ prompt_from cap ucfg true w acts' = true /\
+                Z.of_nat (length acts') <= rank w /\ stopped (run_from cap ucfg true w acts') = true.
+Proof.
+  intros cap ucfg acts Hc Hp w Hcall. apply stop_reaches_stopped; auto.
+Qed.
+
+(* ---------------------------------------------------------------------------------------------- *)
+(* D26 - the consumer as it was BEFORE fix 99e17c5 (daf = false: requestStop, break) - with the capacity of
+   the code (100) and no untrusted nodes configured.
    Schedule: connect; every goroutine registers; the trusted peer sends 102 transactions while
    processUnconfirmedTxs is still busy with the first one: 100 fill the channel, monitorIncoming
    waits with the 102nd inside TxChannel.Add holding the mutex; processing the first one fails
@@ -296,10 +328,10 @@ Definition d26_acts : list act :=
   ++ [AStep PU KFail 0; AStopFlag; AStopReq; ARun true; ARun true;
       AStep RT KEnd 0; AStep PB KEnd 0; AStep CD KEnd 0].
 
-Notation d26_w := (run 100 false d26_acts).
+Notation d26_w := (run 100 false false d26_acts).
 
 Lemma d26_facts :
-  prompt 100 false d26_acts = true /\ stopcall d26_w = 2 /\ stopped d26_w = false /\ d26_state 100 d26_w = true /\
+  prompt 100 false false d26_acts = true /\ stopcall d26_w = 2 /\ stopped d26_w = false /\ d26_state 100 d26_w = true /\
   pc_of d26_w = RWaitIn /\ t_pu (w_thr d26_w) = TDone /\ t_mi (w_thr d26_w) = TLive (PSend CTx) 0 /\
   x_len (w_ch d26_w) = 100 /\ n_in (w_cnt d26_w) = 1 /\ t_cd (w_thr d26_w) = TDone /\ t_mu (w_thr d26_w) = TNone /\
   n_proc (w_cnt d26_w) = 1 /\ t_so (w_thr d26_w) = TLive PTop 0.
@@ -313,11 +345,11 @@ Qed.
 
 (* after the stop request nothing can move: no step of the run loop or of any goroutine is enabled *)
 Theorem d26_refuted :
-  exists acts, prompt 100 false acts = true /\
-    let w := run 100 false acts in
+  exists acts, prompt 100 false false acts = true /\
+    let w := run 100 false false acts in
     stopcall w = 2 /\ stopped w = false /\ d26_state 100 w = true /\
-    (forall a, thread_act a = true -> step 100 false w a = None) /\
-    (forall acts', stopped (run_from 100 false w acts') = false).
+    (forall a, thread_act a = true -> step 100 false false w a = None) /\
+    (forall acts', stopped (run_from 100 false false w acts') = false).
 Proof.
   exists d26_acts. destruct d26_facts as (F1 & F2 & F3 & F4 & _).
   split; [exact F1|]. cbv zeta. split; [exact F2|]. split; [exact F3|]. split; [exact F4|]. split.
@@ -341,12 +373,12 @@ Definition d27_acts : list act :=
    AReg PU; AStep PU KEnd 0; AStep PU KEnd 0].
 
 Theorem d27_refuted :
-  exists acts, prompt 100 false acts = false /\
-    let w := run 100 false acts in
+  exists acts, prompt 100 false true acts = false /\
+    let w := run 100 false true acts in
     stopped w = true /\ d_late (w_dat w) = true /\ d_disk (w_dat w) <> d_mem (w_dat w) /\
     (* and the schedule is fine up to the moment the counter is read *)
-    exists pre post, acts = pre ++ ARun true :: post /\ prompt 100 false pre = true /\
-                     pc_of (run 100 false pre) = RWaitProc /\ thread (run 100 false pre) PU = TSpawned.
+    exists pre post, acts = pre ++ ARun true :: post /\ prompt 100 false true pre = true /\
+                     pc_of (run 100 false true pre) = RWaitProc /\ thread (run 100 false true pre) PU = TSpawned.
 Proof.
   exists d27_acts. split; [vm_compute; reflexivity|]. cbv zeta.
   split; [vm_compute; reflexivity|]. split; [vm_compute; reflexivity|]. split; [vm_compute; discriminate|].
@@ -358,16 +390,16 @@ Qed.
 
 (* a restart (lost connection, time-out) goes through the same phases: when the run loop is back at
    its head, every goroutine of the old round has ended, everything was saved, the stop flags are reset *)
-Theorem restart_resumes : forall cap ucfg acts,
-  prompt cap ucfg acts = true ->
-  let w := run cap ucfg acts in
+Theorem restart_resumes : forall cap ucfg daf acts,
+  prompt cap ucfg daf acts = true ->
+  let w := run cap ucfg daf acts in
   pc_of w = RDecide -> needs w = true -> hard w = false ->
-  let w' := apply cap ucfg w (ARun true) in
+  let w' := apply cap ucfg daf w (ARun true) in
   pc_of w' = RLoop /\ stopping w' = false /\ needs w' = false /\ stopped w' = false /\
   all_dead (w_thr w') /\ d_disk (w_dat w') = d_mem (w_dat w') /\ d_mem (w_dat w') = d_mem (w_dat w).
 Proof.
-  intros cap ucfg acts Hp w Hpc Hn Hh w'.
-  pose proof (Inv_reachable cap ucfg acts Hp) as HI. fold w in HI.
+  intros cap ucfg daf acts Hp w Hpc Hn Hh w'.
+  pose proof (Inv_reachable cap ucfg daf acts Hp) as HI. fold w in HI.
   assert (Ew : w' = set_pc (set_stopping (set_needs w false) false) RLoop).
   { unfold w', Shutdown.apply, Shutdown.step, Shutdown.step_run. rewrite Hpc, Hn, Hh. reflexivity. }
   rewrite Ew. cbn.
@@ -394,7 +426,7 @@ Theorem reconnect_resumes_sync :
 Proof. intros. eapply Sync_Proofs.c02_monitor_passes; eassumption. Qed.
 
 (* the scenario runner used by the correspondence check only takes steps of the transition system *)
-Lemma settle_reach : forall fuel listen a b c w, exists acts, settle fuel listen a b c w = run_from scap false w acts.
+Lemma settle_reach : forall fuel listen a b c w, exists acts, settle fuel listen a b c w = run_from scap false true w acts.
 Proof.
   induction fuel as [|f IH]; intros listen a b c w; [exists []; reflexivity|].
   cbn [settle]. destruct (pick listen a b c w) as [x|]; [|exists []; reflexivity].
